@@ -260,3 +260,10 @@ PCT = [(WCM, "pctr_model"), (WCM, "incB_spec"), (WC, "pctr_final"), (WC, "cspec_
 for pid, items in (("C05", PCT),):
     if pid in PLAN:
         add_imports(pid, WHI + ["ModelCipher", "ModelCtr", "WholeProc", "WholeCtr", "WholeCtrModel"]); PLAN[pid] += items
+
+# parallel ECB as a whole function, both callees as procedure calls (WholePar.v)
+WPR = "WholePar.v"
+PPR = [(WPR, "ppar_model"), (WPR, "ppar_final")]
+for pid, items in (("C07", PPR), ("C06", PPR[:1])):
+    if pid in PLAN:
+        add_imports(pid, WHI + ["ModelCipher", "ModelCtr", "ProofsCtr", "WholeProc", "WholeCtr", "WholeCtrModel", "WholePar"]); PLAN[pid] += items
